@@ -147,6 +147,46 @@ func Classify(args []string) (kind string, rest []string, noReplace bool) {
 	return KUnexpected, args, noReplace
 }
 
+// LooksReadOnly tells whether an argument vector the model does not implement
+// names a git command that only reads (so that meeting it means "extend the
+// model", not "the program under test writes").
+func LooksReadOnly(args []string) bool {
+	a := args
+	for len(a) > 0 && strings.HasPrefix(a[0], "-") {
+		if (a[0] == "-c" || a[0] == "-C" || a[0] == "--git-dir" || a[0] == "--work-tree") && len(a) > 1 {
+			a = a[2:]
+			continue
+		}
+		a = a[1:]
+	}
+	if len(a) == 0 {
+		return true
+	}
+	switch a[0] {
+	case "rev-parse", "rev-list", "cat-file", "for-each-ref", "show-ref", "ls-tree", "ls-files", "log", "show", "describe", "name-rev",
+		"merge-base", "count-objects", "diff-tree", "verify-pack", "var", "version", "check-ref-format", "ls-remote", "fsck", "symbolic-ref", "status":
+		if a[0] == "symbolic-ref" && len(a) > 2 && !strings.HasPrefix(a[len(a)-1], "-") && !strings.HasPrefix(a[len(a)-2], "-") {
+			return false // symbolic-ref <name> <ref> writes
+		}
+		return true
+	case "config":
+		for _, x := range a[1:] {
+			switch x {
+			case "--add", "--unset", "--unset-all", "--replace-all", "--rename-section", "--remove-section", "--edit", "-e":
+				return false
+			}
+		}
+		n := 0
+		for _, x := range a[1:] {
+			if !strings.HasPrefix(x, "-") {
+				n++
+			}
+		}
+		return n <= 1 // `config key value` sets
+	}
+	return false
+}
+
 // revListFlagsOK accepts `rev-list --objects --stdin` with or without an
 // ordering flag (without one, git promises no order among commits at all).
 func revListFlagsOK(flags []string) bool {
